@@ -107,21 +107,27 @@ func (a *c14Acc) merge(b *c14Acc) {
 	}
 }
 
-func (a *c14Acc) group(name string) C14Group {
+func (a *c14Acc) group(name string) C14Group { return a.groupMax(name, c14MaxViolations) }
+
+func (a *c14Acc) groupMax(name string, max int) C14Group {
 	g := C14Group{Name: name, Evaluations: a.evals, Distinct: a.distinct, Samples: a.samples}
 	var suppressed []string
-	// at most c14MaxViolations classes are listed: first the first class of every distinct Sig (in
+	// at most max classes are listed: first the first class of every distinct Sig/form (in
 	// order of discovery), then further classes in order; the rest is named in a Samples note.
 	chosen := map[string]bool{}
 	seenSig := map[string]bool{}
 	for _, k := range a.keys {
-		if v := a.viol[k]; !seenSig[v.sig] && len(chosen) < c14MaxViolations {
-			seenSig[v.sig] = true
+		// selection key: Sig plus the leading word of the description (for the text group: the reply
+		// form req / + / - / $ / *), so that every form of every class is represented first
+		sk := a.viol[k].sig + "|" + strings.SplitN(strings.TrimPrefix(k, a.viol[k].sig+"|"), ":", 2)[0]
+		sk = strings.TrimSuffix(sk, " pipelined")
+		if !seenSig[sk] && len(chosen) < max {
+			seenSig[sk] = true
 			chosen[k] = true
 		}
 	}
 	for _, k := range a.keys {
-		if len(chosen) < c14MaxViolations {
+		if len(chosen) < max {
 			chosen[k] = true
 		}
 	}
@@ -1544,7 +1550,7 @@ func c14Lists(alpha []string, length int, f func([]string)) {
 }
 
 func c14TextChunking(quick bool) C14Group {
-	S := []string{"", "a", "\r\n", "$1", "*2"}
+	S := []string{"", "a", "$1", "*2", "\r\n"}
 	long := []string{c14Pat(127), c14Pat(128), c14Pat(129), c14Pat(1023), c14Pat(1024), c14Pat(1025)}
 	huge := c14Pat(65536)
 	isShort := func(s string) bool { return len(s) <= 2 }
@@ -1575,6 +1581,30 @@ func c14TextChunking(quick bool) C14Group {
 	if !quick {
 		cutsA, cutsB, cutsC = 3, 3, 2
 	}
+	// status lines
+	msgs := append([]string{"", "OK", "a", "$1", "*2", "ERR unknown command"}, long...)
+	if !quick {
+		msgs = append(msgs, huge)
+	}
+	for _, m := range msgs {
+		mc := cutsB
+		if len(m) == len(huge) {
+			mc = 2
+		}
+		enc := builder.BuildResponse(true, m, nil)
+		items = append(items, &c14TextItem{form: "+", desc: "BuildResponse(true, " + c14Q(m) + ", nil)", enc: enc, want: []string{m}, wantType: 1, maxCuts: mc, exhaust: len(enc) <= exhaustN})
+		for _, full := range []string{m, "ERR " + m} {
+			// ParseResponse splits an error line at the first blank into error type and message
+			// (GetResponseCommand: ErrorType=args[0], Message=args[1]); that is the expected value.
+			w := []string{full, ""}
+			if k := strings.IndexByte(full, ' '); k >= 0 {
+				w = []string{full[:k], full[k+1:]}
+			}
+			enc := builder.BuildResponse(false, full, nil)
+			items = append(items, &c14TextItem{form: "-", desc: "BuildResponse(false, " + c14Q(full) + ", nil)", enc: enc, want: w, wantType: 2, maxCuts: mc, exhaust: len(enc) <= exhaustN})
+		}
+	}
+
 	// A
 	for n := 0; n <= 4; n++ {
 		c14Lists(S, n, func(l []string) { addList(l, cutsA, false) })
@@ -1629,30 +1659,6 @@ func c14TextChunking(quick bool) C14Group {
 			}
 		})
 	}
-	// status lines
-	msgs := append([]string{"", "OK", "a", "$1", "*2", "ERR unknown command"}, long...)
-	if !quick {
-		msgs = append(msgs, huge)
-	}
-	for _, m := range msgs {
-		mc := cutsB
-		if len(m) == len(huge) {
-			mc = 2
-		}
-		enc := builder.BuildResponse(true, m, nil)
-		items = append(items, &c14TextItem{form: "+", desc: "BuildResponse(true, " + c14Q(m) + ", nil)", enc: enc, want: []string{m}, wantType: 1, maxCuts: mc, exhaust: len(enc) <= exhaustN})
-		for _, full := range []string{m, "ERR " + m} {
-			// ParseResponse splits an error line at the first blank into error type and message
-			// (GetResponseCommand: ErrorType=args[0], Message=args[1]); that is the expected value.
-			w := []string{full, ""}
-			if k := strings.IndexByte(full, ' '); k >= 0 {
-				w = []string{full[:k], full[k+1:]}
-			}
-			enc := builder.BuildResponse(false, full, nil)
-			items = append(items, &c14TextItem{form: "-", desc: "BuildResponse(false, " + c14Q(full) + ", nil)", enc: enc, want: w, wantType: 2, maxCuts: mc, exhaust: len(enc) <= exhaustN})
-		}
-	}
-
 	tasks := make([]func() *c14Acc, len(items))
 	seen := map[string]int{}
 	dupStreams := 0
@@ -1674,7 +1680,7 @@ func c14TextChunking(quick bool) C14Group {
 		fmt.Sprintf("sample: BuildRequest(%s) = %s, 2^%d chunkings", c14QL([]string{"a"}), c14Q(string(builder.BuildRequest([]string{"a"}))), len(builder.BuildRequest([]string{"a"}))-1),
 		fmt.Sprintf("sample: BuildRequest(%s) = %d bytes, cut positions %v", c14QL([]string{long[4], "\r\n"}), len(builder.BuildRequest([]string{long[4], "\r\n"})), c14CutPositions(builder.BuildRequest([]string{long[4], "\r\n"}))),
 		fmt.Sprintf("sample: BuildResponse(false, %q) = %s wants args %s", "ERR unknown command", c14Q(string(builder.BuildResponse(false, "ERR unknown command", nil))), c14QL([]string{"ERR", "unknown command"})))
-	return acc.group("text-chunking")
+	return acc.groupMax("text-chunking", 8) // 2 Sigs x forms req,+,-,$,* : one witness each
 }
 
 // ---------------------------------------------------------------------------------------------
